@@ -8,6 +8,12 @@ set_option linter.unusedVariables false
 namespace GB.C04
 open GB
 
+theorem parseDigits_val {s : Bytes} {n : Nat} (h : parseDigits s = some n) : n = digitsVal 0 s := by
+  unfold parseDigits at h
+  by_cases hc : (s.isEmpty || !s.all isDigit) = true
+  · rw [if_pos hc] at h; cases h
+  · rw [if_neg hc] at h; cases h; rfl
+
 /-! ### durationpb.New -/
 
 /-- the (seconds, nanos) pair is the value: same sign, |nanos| < 10^9, seconds·10^9 + nanos = ns -/
